@@ -22,7 +22,7 @@ from cryptography.hazmat.primitives.asymmetric import ec
 from cryptography.hazmat.primitives.asymmetric.x25519 import X25519PrivateKey
 
 from vf import keys
-from vf.sshgrammar import F, T, frame, sstr, u32  # noqa: F401
+from vf.sshgrammar import F, T
 
 BANNER = b"SSH-2.0-vfraw_1.0"
 
